@@ -36,7 +36,7 @@ class Spec(pipeprops.PropSpec):
                 c["thr"] = t
                 runs.append((ts, c))
             cases.append({"runs": runs, "meta": {"i": i}})
-        cases += pipemap.stream(tier, rnd, 250, 4000, only_iri=True, grid=True)
+        cases += pipemap.stream(tier, rnd, 400, 4000, only_iri=True, grid=True)
         return cases
 
     def oracle(self, case, impl):
